@@ -96,7 +96,71 @@ def rule_f3(ctx):
     ctx.check(ok, "F3-mutation-kind", f"{MUT}:Mutator.mutate", "returns the (repeatedly) mutated input", site(m), "mutate must return the tree produced by its strategies", "returns inp")
 
 
+def rule_f5(ctx):
+    """Asserted invariants on the completion path must hold for every configuration: 'all grammar symbols were seen' is only true for a traversal from `<start>`
+    (the grammar dictionary keeps `<start>` even when the fuzzer starts elsewhere)."""
+    f = ctx.repo.func(FUZZ, "GrammarCoverageFuzzer.max_expansion_coverage", "C12.F5")
+    c = f"{FUZZ}:GrammarCoverageFuzzer.max_expansion_coverage"
+    asserts = [a for a in walk_local(f) if isinstance(a, ast.Assert) and "len(self.grammar)" in src(a.test)]
+    if not asserts:
+        ctx.ok("F5-coverage-assertion", c, "no whole-grammar assertion", site(f), "nothing asserted about all grammar symbols")
+        return
+    for a in asserts:
+        fs = facts(a)
+        if has_fact(fs, "symbol == '<start>'"):
+            ctx.ok("F5-coverage-assertion", c, "whole-grammar assertion only for a traversal from <start>", site(a), "symbol == '<start>'")
+        elif has_fact(fs, "symbol == self.start_symbol") or not fs:
+            ctx.viol("F5-coverage-assertion", c, "whole-grammar assertion only for a traversal from <start>", site(a),
+                     "the assertion `every grammar symbol was seen` now also runs for a fuzzer whose start symbol is not <start>: the grammar still contains <start> (unreachable from that symbol), "
+                     "so GrammarCoverageFuzzer(g, start_symbol='<stmt>').expand_tree(...) raises AssertionError instead of returning a closed tree")
+        else:
+            raise Unrecognised("C12.F5", c, f"guard of the coverage assertion not understood: {[x.text for x in fs]}")
+
+
+def rule_f6(ctx):
+    """replace_subtree_randomly draws the node to re-generate with random.choices: the weights must have a positive sum for every input, i.e. each weight is
+    1 + (number of candidates) - (size of a sub-list of the candidates) >= 1."""
+    g = ctx.repo.func(MUT, "Mutator.replace_subtree_randomly", "C12.F6")
+    c = f"{MUT}:Mutator.replace_subtree_randomly"
+    ch = [x for x in calls_in(g) if call_name(x) == "random.choices"]
+    if len(ch) != 1:
+        raise Unrecognised("C12.F6", c, "random.choices call not found")
+    w = next((k.value for k in ch[0].keywords if k.arg == "weights"), None)
+    if w is None:
+        ctx.ok("F6-positive-weights", c, "uniform choice", site(ch[0]), "no weights")
+        return
+    if not isinstance(w, ast.ListComp):
+        raise Unrecognised("C12.F6", c, "weights are not a list comprehension")
+
+    def terms(e, sign=1):
+        if isinstance(e, ast.BinOp) and isinstance(e.op, ast.Add):
+            return terms(e.left, sign) + terms(e.right, sign)
+        if isinstance(e, ast.BinOp) and isinstance(e.op, ast.Sub):
+            return terms(e.left, sign) + terms(e.right, -sign)
+        return [(sign, e)]
+
+    ts = terms(w.elt)
+    const = sum(s_ * t.value for s_, t in ts if isinstance(t, ast.Constant) and isinstance(t.value, int))
+    pos_n = [t for s_, t in ts if s_ > 0 and src(t) == "num_candidate_paths"]
+    negs = [t for s_, t in ts if s_ < 0]
+    bounded = all(isinstance(t, ast.Call) and call_name(t) == "len" and isinstance(t.args[0], (ast.ListComp, ast.GeneratorExp)) and src(t.args[0].generators[0].iter) == "candidate_paths" and len(t.args[0].generators) == 1 for t in negs)
+    nc = [a for a in walk_local(g) if isinstance(a, ast.Assign) and src(a.targets[0]) == "num_candidate_paths" and src(a.value) == "len(candidate_paths)"]
+    if len(pos_n) == 1 and len(negs) == 1 and nc:
+        if bounded and const >= 1:
+            ctx.ok("F6-positive-weights", c, "every weight >= 1", site(w), "1 + N - len(sub-list of the N candidates)")
+        elif const < 1:
+            ctx.viol("F6-positive-weights", c, "every weight >= 1", site(w),
+                     f"the weight `{' '.join(src(w.elt).split())[:70]}` has no positive constant part: for an input with a single candidate node (e.g. <start> -> \"\") all weights are 0 and "
+                     "random.choices raises ValueError('Total of weights must be greater than zero') - no mutant is produced")
+        else:
+            raise Unrecognised("C12.F6", c, "the subtracted count is not the size of a sub-list of the candidates: positivity cannot be established")
+    else:
+        raise Unrecognised("C12.F6", c, f"weight expression `{src(w.elt)[:70]}` not understood")
+
+
 def run(ctx) -> str:
+    ctx.guarded("F5", lambda: rule_f5(ctx))
+    ctx.guarded("F6", lambda: rule_f6(ctx))
     ctx.guarded("F1", lambda: rule_f1(ctx))
     ctx.guarded("F2", lambda: rule_f2(ctx))
     ctx.guarded("F3", lambda: rule_f3(ctx))
